@@ -217,8 +217,8 @@ CONFIG = {
     "C10": {
         "level": "exploration",
         "rule": "C10: exhaustive self-deadlock sweep over every public method of the 20 collection types; generated concurrent programs checked for linearizability (porcupine) and structural integrity; the same kind of programs under the race detector with classified reports.",
-        "groups": [G("c10", run="TestMethodSelfDeadlock|TestLinearizability|TestDrainStress|TestBlockingGetStress|TestCrossPutAll|TestGrowthStress|TestBoundStress", shards={"quick": 4, "thorough": 16}, timeout={"quick": 600, "thorough": 3000}),
-                   G("c10", race=True, race_classified=True, run="TestKnownFindings|TestRaceDetector|TestGrowthStress", shards={"quick": 4, "thorough": 16}, timeout={"quick": 600, "thorough": 3000})],
+        "groups": [G("c10", run="TestMethodSelfDeadlock|TestLinearizability|TestDrainStress|TestBlockingGetStress|TestCrossPutAll|TestAddStress|TestGrowthStress|TestBoundStress", shards={"quick": 4, "thorough": 16}, timeout={"quick": 600, "thorough": 3000}),
+                   G("c10", race=True, race_classified=True, run="TestKnownFindings|TestRaceDetector|TestRacePairs|TestGrowthStress", shards={"quick": 4, "thorough": 16}, timeout={"quick": 600, "thorough": 3000})],
         "assumptions": [
             "the sequential specification used by the linearizability check is the structure's own single-goroutine behaviour (replayed on a fresh instance); that behaviour is checked against independent models by C09/C11/C12/C13",
             "the Go scheduler is not controlled: concurrent sub-checks sample schedules (spin barrier, 16 cores); the race detector reports unsynchronised access pairs from happens-before, not from unlucky timing; absence of a report is not absence of a bad interleaving",
